@@ -211,6 +211,21 @@ def run(ctx: core.Check):
         if len(tr.events) > 3000:
             toolrun.report(ctx, tr, label="roundtrip-random", keyfn=keyfn)
             tr = toolrun.Trace()
+    # descriptions over the whole grammar of the language (the C02 generator): every command, parameter, nesting, 0..4
+    # authentication blocks, nested recipients - the round trip must hold for everything in the image of create
+    from . import wiregen
+    for k in range(120 if ctx.quick else 4000):
+        desc = wiregen.rnd_desc(ctx.rng)
+        try:
+            data = toolrun.create_lib(desc)
+        except Exception:
+            continue
+        tr.begin({"origin": "grammar", "desc": desc, "env": data})
+        n += 1
+        roundtrip_events(ctx, tr, keys, d, data, "grammar", n, "cli" if k % 40 == 0 else "lib")
+        if len(tr.events) > 3000:
+            toolrun.report(ctx, tr, label="roundtrip-grammar", keyfn=keyfn)
+            tr = toolrun.Trace()
     # pinned representatives of the known lossy family F4
     for pin, edit in F4_PINS.items():
         sh = {"walg": envgen.ALGS[0], "wsup": "none", "seq": 1, "pad": None, "mem": {}, "cid": None, "version": None, "pay": [],
